@@ -65,6 +65,10 @@ def pack_int(afi: AFI, integer: int) -> bytes:
 
 # the most specific routes one "split" may expand a route into: 2^16
 MAX_SPLIT_BITS = 16
+# the longest value a path attribute can carry: its length field is two octets (RFC 4271 section 4.3)
+MAX_ATTRIBUTE_VALUE = 0xFFFF
+# the largest message any session can carry (RFC 8654 extended message)
+MAX_MESSAGE_SIZE = 65535
 
 class ParseStaticRoute(Section):
     # Schema definition for static route attributes
@@ -379,7 +383,15 @@ class ParseStaticRoute(Section):
         self._split()
         routes = self.scope.pop_routes()
         if routes:
+            checked: set[int] = set()
             for route in routes:
+                # a route whose smallest possible UPDATE is larger than the largest BGP message could
+                # never be sent, to any peer: refuse it now rather than drop it at send time
+                if id(route.attributes) not in checked:
+                    checked.add(id(route.attributes))
+                    problem = self._too_large(route)
+                    if problem:
+                        raise ValueError(problem)
                 # Recreate NLRI with correct type based on actual RD/labels presence
                 # instead of mutating SAFI after creation
                 route.nlri = self._normalize_nlri_type(route.nlri)
@@ -468,6 +480,33 @@ class ParseStaticRoute(Section):
         )
         # Note: nexthop is stored in Route, not NLRI - caller handles nexthop
         return new_nlri
+
+    @staticmethod
+    def _too_large(route: Route) -> str:
+        """Why the route can not fit any UPDATE (RFC 4271 4.3, RFC 8654), or '' when it can."""
+        # header (19), withdrawn routes length (2), total path attribute length (2)
+        smallest = 23
+        for attribute in route.attributes.values():
+            size = len(getattr(attribute, '_packed', b''))
+            if size > MAX_ATTRIBUTE_VALUE:
+                return (
+                    f'attribute {attribute.ID} takes {size} octets\n'
+                    f'  A path attribute can hold at most {MAX_ATTRIBUTE_VALUE} octets'
+                )
+            if size:
+                # flags, type code and a one or two octet length
+                smallest += size + (4 if size > 255 else 3)
+        if Attribute.CODE.ORIGIN not in route.attributes:
+            smallest += 4  # ORIGIN is mandatory and added when the UPDATE is generated
+        cidr = getattr(route.nlri, 'cidr', None)
+        if cidr is not None:
+            smallest += 1 + (cidr.mask + 7) // 8
+        if smallest > MAX_MESSAGE_SIZE:
+            return (
+                f'the route needs an UPDATE of at least {smallest} octets\n'
+                f'  The largest BGP message is {MAX_MESSAGE_SIZE} octets (extended message, RFC 8654)'
+            )
+        return ''
 
     @staticmethod
     def split(last: Route) -> Iterator[Route]:
